@@ -473,5 +473,12 @@ def l5_l6(ck, F, tier):
     fps = [e for e in tw.events if e.callee.endswith("format_progress")]
     fin = [e for e in fps if any("Statistics" in repr(g) and not p for g, p in e.guards) or any("else-branch" in repr(g) for g, p in e.guards)]
     chg = [e for e in fps if any("ne(" in repr(g) and "ebn0_db" in repr(g) and p for g, p in e.guards)]
+    # the statistics a line is written from are those of the last report: the carried value is refreshed with every statistics report
+    carried = [st for st in tw.assign_sites if st[2]]
+    names_c = {st[0].split("#")[0] for st in carried}
+    keep_ok = len(names_c) == 1 and all(isinstance(st[1], tuple) and len(st[1]) == 3 and st[1][:2] == ("ctor", "Some") for st in carried) and len(carried) == 1 \
+        and not any("ebn0_db" in repr(g_) for g_, _ in carried[0][3])
+    ck.inst("L6", "last-report-kept", keep_ok, wb.span,
+            "every statistics report replaces the remembered statistics (%d store(s) to %s inside the receive loop, each of Some(report), not conditioned on the Eb/N0)" % (len(carried), sorted(names_c)))
     ck.inst("L6", "one-line-per-ebn0", len(chg) >= 1 and len(fps) >= 3, wb.span,
             "result-file lines are written when the Eb/N0 of the incoming report differs from the previous one and at Finished (%d format_progress sites, %d under an Eb/N0-changed guard)" % (len(fps), len(chg)))
